@@ -177,6 +177,10 @@ enum Op {
     Preimage { i: usize, kind: usize, wrong: bool },
     Unknown { i: usize, k: u8, v: u8 },
     Update { i: usize, d: usize },
+    /// update from a descriptor of the SAME output that states other key origins
+    UpdateAlt { i: usize },
+    /// a key-origin record left by somebody else: wrong source and (taproot) wrong leaf list
+    StaleOrigin { i: usize, key: usize },
     /// an updater that records scripts / taproot data but no key origins
     SetScripts { i: usize },
     /// one key-origin record (bip32_derivation or tap_key_origins) for instance key `key`
@@ -206,6 +210,8 @@ impl Op {
             Op::Preimage { .. } => "add-wrong-preimage",
             Op::Unknown { .. } => "add-unknown",
             Op::Update { .. } => "update",
+            Op::UpdateAlt { .. } => "update-other-origins",
+            Op::StaleOrigin { .. } => "add-stale-key-origin",
             Op::SetScripts { .. } => "set-scripts-without-origins",
             Op::Deriv { .. } => "add-key-origin",
             Op::Finalize { mall: false, .. } => "finalize",
@@ -235,7 +241,7 @@ impl Op {
             }
             Op::Preimage { i, kind, .. } => Some((*i, 3, *kind)),
             Op::Unknown { i, k, .. } => Some((*i, 4, *k as usize)),
-            Op::Update { i, .. } | Op::SetScripts { i } | Op::Deriv { i, .. } => Some((*i, 5, 0)),
+            Op::Update { i, .. } | Op::UpdateAlt { i } | Op::StaleOrigin { i, .. } | Op::SetScripts { i } | Op::Deriv { i, .. } => Some((*i, 5, 0)),
             _ => None,
         }
     }
@@ -395,6 +401,11 @@ fn tap_key_view_sig(cx: &Ctx, psbt: &Psbt, i: usize) -> Option<bitcoin::taproot:
     })
 }
 
+fn stale_source() -> (bitcoin::bip32::Fingerprint, bitcoin::bip32::DerivationPath) {
+    (bitcoin::bip32::Fingerprint::from([0xaa, 0xaa, 0xaa, 0xaa]), bitcoin::bip32::DerivationPath::from_str("m/86'").unwrap())
+}
+fn stale_leaf() -> bitcoin::taproot::TapLeafHash { bitcoin::taproot::TapLeafHash::from_byte_array([0x5a; 32]) }
+
 fn origin_src(fp: &bitcoin::bip32::Fingerprint, path: &bitcoin::bip32::DerivationPath) -> Vec<u8> {
     let mut v = fp.to_bytes().to_vec();
     v.extend_from_slice(path.to_string().as_bytes());
@@ -493,6 +504,36 @@ fn op_json(cx: &Ctx, psbt: &Psbt, op: &Op) -> J {
             ("d", J::N((cx.desc_base + *d) as i64)),
             ("what", J::S(format!("update_input_with_descriptor({}, descriptor of input {})", i, d))),
         ]),
+        Op::UpdateAlt { i } => J::obj(vec![
+            ("o", J::s("upd")),
+            ("i", J::N(*i as i64)),
+            ("d", J::N((cx.desc_base + 4 + *i) as i64)),
+            ("alt", J::B(true)),
+            ("what", J::S(format!("update_input_with_descriptor({}, descriptor of the same output with OTHER key origins)", i))),
+        ]),
+        Op::StaleOrigin { i, key } => {
+            let k = &cx.pool.keys[m(*i).keys[*key]];
+            let (fp, path) = stale_source();
+            if m(*i).tap.is_some() {
+                let mut v = stale_leaf().to_byte_array().to_vec();
+                v.extend_from_slice(&origin_src(&fp, &path));
+                J::obj(vec![
+                    ("o", J::s("taporigin")),
+                    ("i", J::N(*i as i64)),
+                    ("k", J::S(dig("x", &k.xonly().serialize()))),
+                    ("v", J::S(dig("orig", &v))),
+                    ("what", J::S(format!("stale tap_key_origins entry for key #{} of input {}", key, i))),
+                ])
+            } else {
+                J::obj(vec![
+                    ("o", J::s("deriv")),
+                    ("i", J::N(*i as i64)),
+                    ("k", J::S(dig("pk", &k.pk.serialize()))),
+                    ("v", J::S(dig("src", &origin_src(&fp, &path)))),
+                    ("what", J::S(format!("stale bip32_derivation entry for key #{} of input {}", key, i))),
+                ])
+            }
+        }
         Op::SetScripts { i } => J::obj(vec![
             ("o", J::s("scripts")),
             ("i", J::N(*i as i64)),
@@ -594,6 +635,24 @@ fn exec(cx: &Ctx, psbt: &mut Psbt, op: &Op) -> Res {
                 Err(UtxoUpdateError::MismatchedScriptPubkey) => Res::Upd(4),
                 Err(UtxoUpdateError::DerivationError(_)) => Res::Upd(5),
             },
+            Op::UpdateAlt { i } => match psbt.update_input_with_descriptor(*i, &m(*i).alt_desc) {
+                Ok(()) => Res::Ok,
+                Err(UtxoUpdateError::IndexOutOfBounds(..)) => Res::Upd(1),
+                Err(UtxoUpdateError::MissingInputUtxo) => Res::Upd(2),
+                Err(UtxoUpdateError::UtxoCheck) => Res::Upd(3),
+                Err(UtxoUpdateError::MismatchedScriptPubkey) => Res::Upd(4),
+                Err(UtxoUpdateError::DerivationError(_)) => Res::Upd(5),
+            },
+            Op::StaleOrigin { i, key } => {
+                let mi = m(*i);
+                let k = &cx.pool.keys[mi.keys[*key]];
+                if mi.tap.is_some() {
+                    psbt.inputs[*i].tap_key_origins.insert(k.xonly(), (vec![stale_leaf()], stale_source()));
+                } else {
+                    psbt.inputs[*i].bip32_derivation.insert(k.pk, stale_source());
+                }
+                Res::Ok
+            }
             Op::SetScripts { i } => {
                 let mi = m(*i);
                 let a = &mut psbt.inputs[*i];
@@ -867,7 +926,7 @@ fn monitor(cx: &Ctx, step: usize, op: &Op, before: &Psbt, after: &Psbt, res: &Re
             if cx.case.inputs[*d].spk != cx.case.inputs[*i].spk {
                 v("update-accepts-wrong-descriptor", format!("update of input {} accepted the descriptor of input {}", i, d));
             } else {
-                for b in oracle::check_update(cx.pool, cx.case, *d, &after.inputs[*i], fresh) {
+                for b in oracle::check_update(cx.pool, cx.case, *d, &after.inputs[*i], fresh, false) {
                     v(&format!("update-inconsistent:{}", cx.case.inputs[*d].outer.name()), format!("update of input {} ({}): {}", i, cx.case.inputs[*d].template, b));
                 }
             }
@@ -875,6 +934,28 @@ fn monitor(cx: &Ctx, step: usize, op: &Op, before: &Psbt, after: &Psbt, res: &Re
                 if j != *i && before.inputs[j] != after.inputs[j] {
                     v("update-touched-other", format!("update of input {} changed input {}", i, j));
                 }
+            }
+        }
+        (Op::UpdateAlt { i }, Res::Ok) => {
+            if let Some(why) = utxo_inconsistent(before, *i) {
+                v("update-accepts-inconsistent-utxo", format!("update_input_with_descriptor({}) accepted utxo fields that are not tied to the referenced output: {}", i, why));
+            }
+            // after the LAST successful update every origin and leaf-hash list is what that descriptor says
+            for b in oracle::check_update(cx.pool, cx.case, *i, &after.inputs[*i], false, true) {
+                v(&format!("update-inconsistent:{}", cx.case.inputs[*i].outer.name()), format!("update of input {} ({}) from the descriptor with other key origins: {}", i, cx.case.inputs[*i].template, b));
+            }
+            for j in 0..n {
+                if j != *i && before.inputs[j] != after.inputs[j] {
+                    v("update-touched-other", format!("update of input {} changed input {}", i, j));
+                }
+            }
+        }
+        (Op::UpdateAlt { i }, r) => {
+            if before != after {
+                v("update-fail-mutated", format!("a failing update ({:?}) changed the PSBT", r));
+            }
+            if utxo_inconsistent(before, *i).is_none() {
+                v("update-rejects-own-descriptor", format!("update of input {} with the other-origins descriptor of its own output failed: {:?}", i, r));
             }
         }
         (Op::Update { i, d }, r) => {
@@ -1166,6 +1247,12 @@ fn op_pool(case: &Case, rng: &mut Rng) -> Vec<Op> {
         let m = &case.inputs[i];
         v.push(Op::Update { i, d: i });
         if rng.chance(1, 2) {
+            v.push(Op::UpdateAlt { i });
+        }
+        if rng.chance(1, 4) {
+            v.push(Op::StaleOrigin { i, key: rng.below(m.keys.len()) });
+        }
+        if rng.chance(1, 2) {
             v.push(Op::SetScripts { i });
             v.push(Op::Deriv { i, key: rng.below(m.keys.len()) });
         }
@@ -1277,6 +1364,9 @@ struct Stats {
     updates_checked: usize,
     order_checks: usize,
     idem_checks: usize,
+    timelock_rows: usize,
+    satisfier_calls: usize,
+    satisfier_ok: usize,
 }
 
 #[allow(clippy::too_many_arguments)]
@@ -1304,7 +1394,7 @@ fn run_history(
         opj.push(op_json(cx, &before, op));
         let res = exec(cx, &mut psbt, op);
         monitor(cx, t, op, &before, &psbt, &res, &checked, &mut viols);
-        if let (Op::Update { i, .. }, Res::Ok) = (op, &res) {
+        if let (Op::Update { i, .. }, Res::Ok) | (Op::UpdateAlt { i }, Res::Ok) = (op, &res) {
             if *i < checked.len() {
                 checked[*i] = true;
             }
@@ -1442,7 +1532,7 @@ fn probes(cx: &Ctx, cid: usize, int: &mut Interner, lines: &mut Vec<String>) {
         let r = catch_unwind(AssertUnwindSafe(|| p.update_input_with_descriptor(j, &m.desc)));
         match r {
             Ok(Ok(())) => {
-                for b in oracle::check_update(cx.pool, case, j, &p.inputs[j], true) {
+                for b in oracle::check_update(cx.pool, case, j, &p.inputs[j], true, false) {
                     pv(&format!("update-inconsistent:{}", m.outer.name()), format!("fresh update with {}: {}", m.template, b));
                 }
             }
@@ -1464,6 +1554,52 @@ fn probes(cx: &Ctx, cid: usize, int: &mut Interner, lines: &mut Vec<String>) {
             ])
             .to_string(),
         );
+        // the alias descriptor: same output, other key origins (feeds the model's desc_info too)
+        if m.alt_desc.script_pubkey() != m.spk {
+            pv("selfcheck", format!("alias descriptor {} derives another script_pubkey", m.alt_desc_str));
+        }
+        let mut pa = base_psbt(case);
+        match catch_unwind(AssertUnwindSafe(|| pa.update_input_with_descriptor(j, &m.alt_desc))) {
+            Ok(Ok(())) => {
+                for b in oracle::check_update(cx.pool, case, j, &pa.inputs[j], true, true) {
+                    pv(&format!("update-inconsistent:{}", m.outer.name()), format!("fresh update with {} (other key origins): {}", m.template, b));
+                }
+            }
+            other => pv("update-rejects-own-descriptor", format!("fresh update with the other-origins descriptor of {} failed: {:?}", m.template, other.map(|x| x.err()))),
+        }
+        let ida = int.get(lines, &abs_input(&pa, j));
+        lines.push(
+            J::obj(vec![
+                ("t", J::s("desc")),
+                ("id", J::N((cx.desc_base + 4 + j) as i64)),
+                ("case", J::N(cid as i64)),
+                ("str", J::S(m.alt_desc_str.clone())),
+                ("template", J::S(format!("{} [other key origins]", m.template))),
+                ("outer", J::s(m.outer.name())),
+                ("tr", J::B(m.outer == Outer::Tr)),
+                ("segwit", J::B(m.outer.is_segwit())),
+                ("spk", J::S(dig("spk", m.spk.as_bytes()))),
+                ("fresh", J::N(ida as i64)),
+            ])
+            .to_string(),
+        );
+        // repeated update_output_with_descriptor of ONE output from the two descriptors, both
+        // orders: afterwards the output's key origins are those of the LAST descriptor
+        for first_alt in [false, true] {
+            let mut po = base_psbt(case);
+            po.unsigned_tx.output[0].script_pubkey = m.spk.clone();
+            let (d1, d2) = if first_alt { (&m.alt_desc, &m.desc) } else { (&m.desc, &m.alt_desc) };
+            let r1 = po.update_output_with_descriptor(0, d1);
+            let r2 = po.update_output_with_descriptor(0, d2);
+            if r1.is_err() || r2.is_err() {
+                pv("update-output-inconsistent", format!("update_output_with_descriptor with a descriptor of the output's own script failed for {}: {:?} {:?}", m.template, r1, r2));
+            } else {
+                for b in oracle::check_output_origins(cx.pool, case, j, &po.outputs[0], !first_alt) {
+                    pv(&format!("update-output-inconsistent:{}", m.outer.name()),
+                       format!("output updated twice ({} then {}) for {}: {}", if first_alt { "other origins" } else { "original" }, if first_alt { "original" } else { "other origins" }, m.template, b));
+                }
+            }
+        }
         // sighash_msg agrees with the harness' own sighash computation
         let mut cache = SighashCache::new(&case.tx);
         if let Some(msg) = m.ecdsa_msg {
@@ -1719,6 +1855,216 @@ fn mall_probe(pool: &Pool, lines: &mut Vec<String>) {
     );
 }
 
+/// plan -> update PSBT -> sign -> finalize, against update_input_with_descriptor -> sign -> finalize
+fn plan_differential(cx: &Ctx, cid: usize, j: usize, rng: &mut Rng, lines: &mut Vec<String>) {
+    let case = cx.case;
+    let m = &case.inputs[j];
+    let mut assets = Assets::new();
+    for ki in &m.keys {
+        match DescriptorPublicKey::from_str(&cx.pool.keys[*ki].desc) {
+            Ok(k) => assets = assets.add(k),
+            Err(_) => return,
+        }
+    }
+    for kind in &m.uses_hash {
+        let h = gen::hash_of(*kind, &cx.pool.preimages[*kind]);
+        assets = match kind {
+            0 => assets.add(sha256::Hash::from_slice(&h).unwrap()),
+            1 => assets.add(hash160::Hash::from_slice(&h).unwrap()),
+            2 => assets.add(ripemd160::Hash::from_slice(&h).unwrap()),
+            _ => assets.add(miniscript::hash256::Hash::from_slice(&h).unwrap()),
+        };
+    }
+    if let Some(rl) = m.sequence.to_relative_lock_time() {
+        if case.tx.version.0 >= 2 {
+            assets = assets.older(rl);
+        }
+    }
+    if m.sequence.enables_absolute_lock_time() {
+        assets = assets.after(case.tx.lock_time);
+    }
+    let d = m.desc.clone();
+    let plan = match catch_unwind(AssertUnwindSafe(|| d.into_plan(&assets))) {
+        Ok(Ok(p)) => p,
+        _ => return,
+    };
+    let mut g = base_psbt(case);
+    for i in 0..case.inputs.len() {
+        if i != j {
+            prepare_input(cx, &mut g, i, 2, rng);
+        }
+    }
+    let mut by_plan = g.clone();
+    let mut by_update = g;
+    plan.update_psbt_input(&mut by_plan.inputs[j]);
+    exec(cx, &mut by_update, &Op::Update { i: j, d: j });
+    let mut signing: Vec<Op> = (0..m.ecdsa_sigs.len()).map(|k| Op::Sig { i: j, key: k, variant: 0 }).collect();
+    if m.tap_key_sig.is_some() {
+        signing.push(Op::TapKeySig { i: j, bad: false });
+    }
+    for idx in 0..m.tap_script_sigs.len() {
+        signing.push(Op::TapScriptSig { i: j, idx, bad: false });
+    }
+    for kind in &m.uses_hash {
+        signing.push(Op::Preimage { i: j, kind: *kind, wrong: false });
+    }
+    for op in &signing {
+        exec(cx, &mut by_plan, op);
+        exec(cx, &mut by_update, op);
+    }
+    let ra = exec(cx, &mut by_update, &Op::FinalizeInp { i: j, mall: false, byval: false });
+    let rb = exec(cx, &mut by_plan, &Op::FinalizeInp { i: j, mall: false, byval: false });
+    lines.push(J::obj(vec![("t", J::s("probe-stats")), ("case", J::N(cid as i64)), ("plans", J::N(1))]).to_string());
+    if by_update.inputs[j].final_script_sig != by_plan.inputs[j].final_script_sig
+        || by_update.inputs[j].final_script_witness != by_plan.inputs[j].final_script_witness
+    {
+        lines.push(
+            J::obj(vec![
+                ("t", J::s("probe-viol")),
+                ("case", J::N(cid as i64)),
+                ("key", J::S(format!("plan-update-changes-finalization:{}", m.outer.name()))),
+                ("what", J::S(format!(
+                    "input {} ({}): prepared by Plan::update_psbt_input and signed it finalizes as {:?}, prepared by update_input_with_descriptor with the same signatures as {:?}",
+                    j, m.template, rb, ra
+                ))),
+            ])
+            .to_string(),
+        );
+    }
+    // and when the whole PSBT can be finalized, the plan-prepared one extracts to a valid transaction
+    let ea = exec(cx, &mut by_update, &Op::Finalize { mall: false, byval: false });
+    let eb = exec(cx, &mut by_plan, &Op::Finalize { mall: false, byval: false });
+    if ea == Res::Ok && eb == Res::Ok {
+        let mut v = Vec::new();
+        let checked = vec![true; case.inputs.len()];
+        monitor_extract(cx, 0, &by_plan, &checked, &mut v);
+        if by_plan.extract(&cx.vsecp).is_err() || !v.is_empty() {
+            lines.push(
+                J::obj(vec![
+                    ("t", J::s("probe-viol")),
+                    ("case", J::N(cid as i64)),
+                    ("key", J::S(format!("plan-update-extract:{}", m.outer.name()))),
+                    ("what", J::S(format!("input {} ({}): the plan-prepared, fully finalized PSBT does not extract to a valid transaction", j, m.template))),
+                ])
+                .to_string(),
+            );
+        }
+    }
+}
+
+// ------------------------------------------------------------------ the satisfier, called directly
+/// Differential oracle for PsbtInputSatisfier (round 4 seeds C01-7, C01-8, C03-7): the same
+/// inputs spent by transactions of version 1/2/3 with nLockTime and nSequence around the lock
+/// values (final and non-final inputs mixed, both units).  For every input
+///  (2) `check_after` / `check_older` of the PSBT satisfier are compared with BIP65/68/112
+///      arithmetic on (version, nLockTime, THIS input's nSequence) over a grid of lock values
+///      (the rows also go to Coq), and
+///  (1) `get_satisfaction` / `get_satisfaction_mall` are called directly; what they return is
+///      judged by the independent spend verification for THAT transaction, non-malleable results
+///      must not carry a signature the policy does not need, and a signature-complete input
+///      must get a satisfaction.
+fn satisfier_probe(pool: &Pool, case: &Case, cid: usize, rng: &mut Rng, nvar: usize, lines: &mut Vec<String>, st: &mut Stats) {
+    use miniscript::psbt::PsbtInputSatisfier;
+    use miniscript::Satisfier;
+    let n = case.inputs.len();
+    let mut pv = |lines: &mut Vec<String>, key: String, what: String| {
+        lines.push(J::obj(vec![("t", J::s("probe-viol")), ("case", J::N(cid as i64)), ("key", J::S(key)), ("what", J::S(what))]).to_string())
+    };
+    for _ in 0..nvar {
+        let version = [1i32, 2, 2, 2, 3][rng.below(5)];
+        let lock_time = [0u32, 499, 500, 600, 699, 700, 701, 500_000_600][rng.below(8)];
+        let seqs: Vec<u32> = (0..n)
+            .map(|j| {
+                let older = match &case.inputs[j].pol {
+                    _ => 5u32 + 5 * (rng.below(2) as u32),
+                };
+                [0xffff_ffffu32, 0xffff_ffff, 0xffff_fffe, 0xffff_fffd, 0, older - 1, older, older + 1, 4, 5, 9, 10, 11, (1 << 22) | older, (1 << 31) | older][rng.below(15)]
+            })
+            .collect();
+        let vc = match gen::revariant(pool, case, version, lock_time, &seqs) {
+            Ok(c) => c,
+            Err(_) => continue,
+        };
+        let cx = Ctx { pool, case: &vc, vsecp: Secp256k1::verification_only(), desc_base: 0 };
+        let mut psbt = base_psbt(&vc);
+        for i in 0..n {
+            let m = &vc.inputs[i];
+            exec(&cx, &mut psbt, &Op::Update { i, d: i });
+            for k in 0..m.ecdsa_sigs.len() {
+                exec(&cx, &mut psbt, &Op::Sig { i, key: k, variant: 0 });
+            }
+            for idx in 0..m.tap_script_sigs.len() {
+                exec(&cx, &mut psbt, &Op::TapScriptSig { i, idx, bad: false });
+            }
+            for kind in &m.uses_hash {
+                exec(&cx, &mut psbt, &Op::Preimage { i, kind: *kind, wrong: false });
+            }
+        }
+        let ctxt = format!("tx version {}, nLockTime {}, nSequences {:?}", version, lock_time, seqs);
+        for i in 0..n {
+            let m = &vc.inputs[i];
+            let sat = PsbtInputSatisfier::new(&psbt, i);
+            // (2) the two predicates
+            for nn in [1u32, 499, 500, 501, 599, 600, 601, 699, 700, 701, 499_999_999, 500_000_000, 500_000_600, 500_000_601] {
+                let lib = Satisfier::<bitcoin::PublicKey>::check_after(&sat, bitcoin::absolute::LockTime::from_consensus(nn));
+                let want = oracle::after_ok(lock_time, seqs[i], nn);
+                st.timelock_rows += 1;
+                lines.push(format!("{{\"t\":\"tl\",\"k\":0,\"ver\":{},\"lt\":{},\"seq\":{},\"n\":{},\"r\":{}}}", version, lock_time, seqs[i], nn, lib));
+                if lib != want {
+                    pv(lines, "timelock-predicate-mismatch:after".into(), format!("PsbtInputSatisfier::check_after({}) = {} for input {} but BIP65 says {} ({})", nn, lib, i, want, ctxt));
+                }
+            }
+            for (val, time) in [(1u16, false), (4, false), (5, false), (6, false), (9, false), (10, false), (11, false), (65535, false), (5, true), (10, true), (11, true)] {
+                let rl = if time { bitcoin::relative::LockTime::from_512_second_intervals(val) } else { bitcoin::relative::LockTime::from_height(val) };
+                let nn = (val as u32) | if time { 1 << 22 } else { 0 };
+                let lib = Satisfier::<bitcoin::PublicKey>::check_older(&sat, rl);
+                let want = oracle::older_ok(version, seqs[i], nn);
+                st.timelock_rows += 1;
+                lines.push(format!("{{\"t\":\"tl\",\"k\":1,\"ver\":{},\"lt\":{},\"seq\":{},\"n\":{},\"r\":{}}}", version, lock_time, seqs[i], nn, lib));
+                if lib != want {
+                    pv(lines, "timelock-predicate-mismatch:older".into(), format!("PsbtInputSatisfier::check_older({}{}) = {} for input {} but BIP68/112 say {} ({})", val, if time { " x512s" } else { " blocks" }, lib, i, want, ctxt));
+                }
+            }
+            // (1) the satisfier itself
+            let complete = signature_complete(&cx, &psbt, i);
+            for mall in [false, true] {
+                let d = m.desc.clone();
+                let r = catch_unwind(AssertUnwindSafe(|| {
+                    let sat = PsbtInputSatisfier::new(&psbt, i);
+                    if mall {
+                        d.get_satisfaction_mall(sat)
+                    } else {
+                        d.get_satisfaction(sat)
+                    }
+                }));
+                st.satisfier_calls += 1;
+                match r {
+                    Err(_) => pv(lines, "panic".into(), format!("get_satisfaction panicked for input {} ({}; {})", i, m.template, ctxt)),
+                    Ok(Err(e)) => {
+                        if complete {
+                            pv(lines, format!("satisfier-incomplete:{}", m.outer.name()),
+                               format!("get_satisfaction{} found nothing for the signature-complete input {} ({}; {}): {}", if mall { "_mall" } else { "" }, i, m.template, ctxt, e));
+                        }
+                    }
+                    Ok(Ok((wit, ssig))) => {
+                        st.satisfier_ok += 1;
+                        let w = Witness::from_slice(&wit);
+                        if let Err(e) = oracle::verify_spend(pool, &vc, i, &ssig, &w).and_then(|_| oracle::interpreter_accepts(pool, &vc, i, &ssig, &w)) {
+                            pv(lines, format!("satisfier-invalid-spend:{}", m.outer.name()),
+                               format!("get_satisfaction{} for input {} ({}) returned a witness that does not spend the output in this transaction ({}): {}", if mall { "_mall" } else { "" }, i, m.template, ctxt, e));
+                        } else if !mall {
+                            if let Some(k) = oracle::unneeded_signature(pool, &vc, i, &ssig, &w) {
+                                pv(lines, format!("satisfier-malleable:{}", m.outer.name()),
+                                   format!("get_satisfaction for input {} ({}) used the signature of key #{} although the spending condition holds without it in this transaction ({}): a third party can strip it", i, m.template, k, ctxt));
+                            }
+                        }
+                    }
+                }
+            }
+        }
+    }
+}
+
 // ------------------------------------------------------------------ entry
 pub fn run(args: &[String]) {
     let seed: u64 = args.first().and_then(|s| s.parse().ok()).unwrap_or(1);
@@ -1755,6 +2101,9 @@ pub fn run(args: &[String]) {
         updates_checked: 0,
         order_checks: 0,
         idem_checks: 0,
+        timelock_rows: 0,
+        satisfier_calls: 0,
+        satisfier_ok: 0,
     };
     let stdout = std::io::stdout();
     let mut w = std::io::BufWriter::new(stdout.lock());
@@ -1789,7 +2138,7 @@ pub fn run(args: &[String]) {
             Ok(c) => c,
             Err(e) => {
                 lines.push(J::obj(vec![("t", J::s("gen-error")), ("case", J::N(cid as i64)), ("error", J::S(e))]).to_string());
-                desc_base += 4;
+                desc_base += 8;
                 continue;
             }
         };
@@ -1797,7 +2146,7 @@ pub fn run(args: &[String]) {
         // history ids are stable under --only: case id * 10000 + running number
         hid = cid * 10_000;
         let this_base = desc_base;
-        desc_base += 4;
+        desc_base += 8;
         if let Some(o) = only {
             if o != cid {
                 continue;
@@ -1823,6 +2172,7 @@ pub fn run(args: &[String]) {
             .to_string(),
         );
         probes(&cx, cid, &mut int, &mut lines);
+        satisfier_probe(&pool, &case, cid, &mut Rng(seed ^ (cid as u64).wrapping_mul(0x5151_7C17_0077_1234)), if tier == "thorough" { 16 } else { 8 }, &mut lines, &mut st);
         for m in &case.inputs {
             if let Some(tap) = &m.tap {
                 for (ki, li, _, _) in &m.tap_script_sigs {
@@ -2059,6 +2409,85 @@ pub fn run(args: &[String]) {
                     }
                 }
             }
+            // (g) the same input updated twice from two descriptors of the same output with different key
+            //     origins, both orders, and over a stale record left by somebody else: after the LAST
+            //     successful update the origins are those of that descriptor
+            if ini < 2 {
+                for j in 0..nin {
+                    let m = &case.inputs[j];
+                    if m.tap.is_none() && !rng.chance(1, 2) {
+                        continue;
+                    }
+                    let mut g = base_psbt(&case);
+                    for i in 0..nin {
+                        if i != j {
+                            prepare_input(&cx, &mut g, i, 2, &mut rng);
+                        }
+                    }
+                    let mut signing: Vec<Op> = (0..m.ecdsa_sigs.len()).map(|k| Op::Sig { i: j, key: k, variant: 0 }).collect();
+                    for idx in 0..m.tap_script_sigs.len() {
+                        signing.push(Op::TapScriptSig { i: j, idx, bad: false });
+                    }
+                    for kind in &m.uses_hash {
+                        signing.push(Op::Preimage { i: j, kind: *kind, wrong: false });
+                    }
+                    let tail = vec![Op::FinalizeInp { i: j, mall: false, byval: false }, Op::Extract];
+                    let starts: Vec<Vec<Op>> = vec![
+                        vec![Op::Update { i: j, d: j }, Op::UpdateAlt { i: j }],
+                        vec![Op::UpdateAlt { i: j }, Op::Update { i: j, d: j }],
+                        vec![Op::StaleOrigin { i: j, key: m.keys.len() - 1 }, Op::StaleOrigin { i: j, key: 0 }, Op::Update { i: j, d: j }],
+                        vec![Op::Update { i: j, d: j }, Op::UpdateAlt { i: j }, Op::Update { i: j, d: j }],
+                    ];
+                    for st0 in starts {
+                        let mut ops = st0;
+                        ops.extend(signing.clone());
+                        ops.extend(tail.clone());
+                        run_history(&cx, &g, &ops, "re-update", hid, cid, &mut int, &mut lines, &mut st);
+                        hid += 1;
+                    }
+                }
+            }
+            // (h) a taproot input listing several leaves of which only ONE is signed (every leaf in turn, so
+            //     the unsatisfiable ones come before and after it in the control-block map): the
+            //     finalizer must skip the leaves it cannot satisfy and finalize through the signed one
+            if ini < 2 {
+                for j in 0..nin {
+                    let m = &case.inputs[j];
+                    let nleaves = m.tap.as_ref().map(|t| t.leaves.len()).unwrap_or(0);
+                    if nleaves < 2 {
+                        continue;
+                    }
+                    let mut g = base_psbt(&case);
+                    for i in 0..nin {
+                        if i != j {
+                            prepare_input(&cx, &mut g, i, 2, &mut rng);
+                        }
+                    }
+                    for li in 0..nleaves {
+                        let mut ops = vec![if ini == 0 { Op::Update { i: j, d: j } } else { Op::SetScripts { i: j } }];
+                        for (idx, (_, l2, _, _)) in m.tap_script_sigs.iter().enumerate() {
+                            if *l2 == li {
+                                ops.push(Op::TapScriptSig { i: j, idx, bad: false });
+                            }
+                        }
+                        for kind in &m.uses_hash {
+                            ops.push(Op::Preimage { i: j, kind: *kind, wrong: false });
+                        }
+                        ops.push(Op::FinalizeInp { i: j, mall: false, byval: false });
+                        ops.push(Op::Finalize { mall: true, byval: false });
+                        ops.push(Op::Extract);
+                        run_history(&cx, &g, &ops, "one-leaf-signed", hid, cid, &mut int, &mut lines, &mut st);
+                        hid += 1;
+                    }
+                }
+            }
+            // (i) plan-driven preparation: Plan::update_psbt_input instead of the checked updater, same
+            //     signatures: must finalize to the same fields (every Sh inner type, wsh, tr, ...)
+            if ini == 0 {
+                for j in 0..nin {
+                    plan_differential(&cx, cid, j, &mut rng, &mut lines);
+                }
+            }
             // (c) the straight path: everything added, finalize, extract (must produce valid spends where possible)
             let mut ops: Vec<Op> = pool_ops.iter().filter(|o| matches!(o.kind(), "update" | "add-sig" | "add-tap-key-sig" | "add-tap-script-sig" | "add-preimage" | "add-unknown")).cloned().collect();
             ops.retain(|o| !matches!(o, Op::Update { i, d } if i != d));
@@ -2095,6 +2524,9 @@ pub fn run(args: &[String]) {
         ("updates_checked", J::N(st.updates_checked as i64)),
         ("order_checks", J::N(st.order_checks as i64)),
         ("idempotence_checks", J::N(st.idem_checks as i64)),
+        ("timelock_predicate_rows", J::N(st.timelock_rows as i64)),
+        ("direct_satisfier_calls", J::N(st.satisfier_calls as i64)),
+        ("direct_satisfier_witnesses_verified", J::N(st.satisfier_ok as i64)),
         ("distinct_input_states", J::N(int.map.len() as i64)),
     ]);
     let _ = writeln!(w, "{}", summary.to_string());
